@@ -133,7 +133,9 @@ def has_multiline_args(entries):
         for a in e.get('attrs', []) or []:
             yield a['name']
             if a['dv']: yield a['dv']
-    return any(('\n' in t or '\r' in t) for e in entries for t in texts(e))
+    # every character str.splitlines() (and hence docutils) treats as a line boundary
+    breaks = set('\n\r\x0b\x0c\x1c\x1d\x1e\x85\u2028\u2029')
+    return any(any(c in breaks for c in t) for e in entries for t in texts(e))
 
 
 def project(prop, rst, entries):
